@@ -21,6 +21,14 @@ KEY ORDER (field 'ko'): the row dicts pushed into dump_to_file carry their keys 
 reversed schema order ('reversed'), in one random permutation for the whole case (['perm', seed]) or in a fresh
 random permutation for every ROW (['rowperm', seed]); the key order of a dict is not part of the value of a row
 (equal dicts), so the file must hold the same rows BY FIELD NAME (file columns in schema order) whatever the order.
+SCALE family (field 'scale'; same runner, same oracle): dump batch sizes around the 16 bit widths and multiples of 2^15
+(32768, 32769, 65535, 65536, 98304, 100000, thorough also 131072..262144) with row counts that are exact multiples, one
+less, one more (65536, 65537, 98304, 131072, ... rows); 20000..100000 rows read back with load batch sizes 1..7
+(thousands of load batches) and with load batch sizes above 65535; thorough: thousands of dump batches; generated
+schemas of 100..300 columns; string / binary values of 32 KiB .. 200 KiB (thorough 1 MiB) with 1, 2 and 4 byte code
+points.  Rows of the big cases are cheap (schema 'lean': id, a short string, id mod 65536; a function of the row index
+alone).  The list model in Coq is quadratic in the batch size, so scale cases with model_cost > MODEL_MAX_COST are
+judged by the oracle alone (term CSkip); the others are compared with the model like every other case.
 Plus: rs.data.batch(n) alone, per-step emissions (kind 'batch')."""
 import json
 import math
@@ -54,6 +62,17 @@ RULE = ('cases: row count k x dump batch size n x load batch size m x row_group_
         'permutation per case | a fresh random permutation per ROW (from the seed in the case); a row is equal to '
         'the source row only if every FIELD NAME carries the source value of that name and the columns of the file '
         'are in schema order; exhaustive key order x fixed schema x (k,n) in {(1,1),(2,1),(5,2)}; 2-3 columns of ONE type x every column type x every non-schema key order. '
+        'SCALE family (field scale, same runner and oracle, every choice from a PRNG derived from the case PRNG): '
+        'big-batch = dump batch_size in {32768, 32769, 65535, 65536, 98304, 100000} (thorough: every one of them x row '
+        'count in {n-1, n, n+1, 2n, 2n+-1, one of 65536/65537/98304/131072}, 3n rows, and batch sizes 131072..262144; '
+        'quick: 4 cases, one of them always full batches of 65536 rows only) x load batch size in {1024 .. 131072 incl. '
+        '65535/65536/65537/100000} x row_group_size none/1000/32768/65536/100000; many-load-batches = 20000..40000 '
+        '(thorough ..100000) rows read back with load batch size 1..7 (2800..100000 load batches); many-dump-batches '
+        '(thorough) = 40000..100000 rows in dump batches of 8..32; wide-schema = generated schemas of 100/128/200/255/256/'
+        '257/300 columns; long-values = string and binary values of 0 .. 200000 characters (32767/32768/65535/65536/65537/'
+        '102400/131072; thorough also 2^20) built from 1, 2 and 4 byte code points. Rows of the first three are cheap '
+        '(id, short string, id mod 65536). Scale cases whose model evaluation would cost more than MODEL_MAX_COST list '
+        'steps (quadratic in the batch size) are judged by the oracle alone (CSkip). '
         'non-trivial = k > n (at least two batches written); distinct = distinct '
         'case JSON')
 TRUSTED = ['NOT modelled: pyarrow (RecordBatch.from_arrays, ParquetWriter, compression codecs, ParquetFile.iter_batches, '
@@ -140,6 +159,10 @@ def schema_of(kind):
         return pa.schema([(n, pa_type(t)) for n, t in kind['cols']])
     if kind == 'flat':
         return pa.schema([('id', pa.int64()), ('s', pa.string()), ('f', pa.float64()), ('u', pa.uint8())])
+    if kind == 'lean':          # scale family: cheap rows, tens of thousands of them
+        return pa.schema([('id', pa.int64()), ('s', pa.string()), ('u', pa.uint16())])
+    if kind in ('longstr', 'longstr-1m'):   # scale family: string / binary values of 32 KiB .. 200 KiB (1 MiB)
+        return pa.schema([('id', pa.int64()), ('s', pa.string()), ('b', pa.binary())])
     if kind == 'nested':
         return pa.schema([('id', pa.int64()), ('s', pa.string()),
                           ('st', pa.struct([('a', pa.int32()), ('b', pa.string()), ('c', pa.list_(pa.uint16()))])),
@@ -150,6 +173,7 @@ def schema_of(kind):
 
 
 STRS = ['', 'a', 'é', '\U0001f600', 'line\nbreak', 'quote"', 'x' * 40, '\x00']
+LONG_LENS = [0, 1, 1000, 32767, 32768, 65535, 65536, 65537, 102400, 102400, 102401, 131072, 200000]
 
 
 def make_rows(kind, k, seed):
@@ -157,6 +181,15 @@ def make_rows(kind, k, seed):
     rows = []
     if is_gen(kind):
         return [{n: gen_value(t, rng, i) for n, t in kind['cols']} for i in range(k)]
+    if kind == 'lean':          # no PRNG: the content of row i is a function of i (all rows distinct through id)
+        return [{'id': i, 's': 'r%d' % (i % 97), 'u': i % 65536} for i in range(k)]
+    if kind in ('longstr', 'longstr-1m'):
+        lens = LONG_LENS + ([2 ** 20, 2 ** 20 + 1] if kind == 'longstr-1m' else [])
+        for i in range(k):
+            unit = rng.choice(['%d,', '\xe9%d;', '\U0001f600%d ']) % i      # 1, 2 and 4 byte code points
+            ls, lb = rng.choice(lens), rng.choice([0, 0, 3, 65535, 65536, 102400])
+            rows.append({'id': i, 's': (unit * (ls // len(unit) + 1))[:ls], 'b': bytes([i % 256, 0, 255]) * (lb // 3)})
+        return rows
     for i in range(k):
         f = rng.choice([0.0, -0.0, 1.5, 1e300, -1e-300, float(i) / 3, float('inf'), rng.random()])
         if kind == 'flat':
@@ -285,8 +318,16 @@ def equal_consecutive_batches(case):
     return sum(1 for x, y in zip(b, b[1:]) if x == y)
 
 
+_ATOMS = {int: 'int', str: 'str', bytes: 'bytes', type(None): 'NoneType'}
+
+
 def canon(v):
     """bit-exact, order-preserving canonical form of a row value"""
+    a = _ATOMS.get(type(v))
+    if a is not None:           # fast path (exact types only: a bool is not an int here), same value as the last line
+        return (a, v)
+    if type(v) is dict:         # key ORDER matters (column order); atoms inlined, this is the hot spot of the scale family
+        return ('d', tuple([(k, (_ATOMS[type(x)], x) if type(x) in _ATOMS else canon(x)) for k, x in v.items()]))
     if isinstance(v, float):
         return ('f', v.hex())
     if isinstance(v, dict):
@@ -417,6 +458,93 @@ def generated_schemas(rng, tier):
     return out
 
 
+# ---- SCALE family (field 'scale'): batches beyond 2^15 / 2^16 rows, thousands of load batches, wide schemas, long values
+BIG_NS = [32768, 32769, 65535, 65536, 98304, 100000]        # dump batch sizes around the 16 bit widths and multiples of 2^15
+BIG_KS = [65536, 65537, 98304, 131072]
+BIG_MS = [1024, 2000, 4096, 32768, 65535, 65536, 65537, 100000, 131072]
+WIDE_COLS = [100, 128, 200, 255, 256, 257, 300]
+MODEL_MAX_COST = 6 * 10 ** 7     # the list model is quadratic in the batch size (b ++ [i]): about 1 s per 2.5 * 10^7
+
+
+def model_cost(case):
+    k, n, m, rg = case['k'], case['n'], case['m'], case['rg']
+    return k * min(n, k) * 2 + k * min(m, k) + (k * min(rg, n, k) if rg else 0)
+
+
+def in_model(case):
+    """scale cases whose evaluation in Coq would take minutes are judged by the model-free oracle alone (CSkip)"""
+    return not case.get('scale') or model_cost(case) <= MODEL_MAX_COST
+
+
+def mk_scale(rng, what, k, n, m, **kw):
+    c = {'kind': 'pq', 'scale': what, 'k': k, 'n': n, 'm': m,
+         'rg': rng.choice([None, None, None, 1000, 32768, 65536, 100000]), 'comp': rng.choice(COMP), 'schema': 'lean',
+         'io': rng.choice(['path', 'path', 'fileobj', 'open_obj']), 'seed': rng.randrange(10 ** 6),
+         'ko': rng.choice(['schema', 'reversed', ['perm', rng.randrange(10 ** 6)]])}
+    c.update(kw)
+    return c
+
+
+def around(rng, n, js=(1, 1, 2)):
+    """a row count that is a multiple of n, one less or one more, or one of the listed counts"""
+    j = rng.choice(js)
+    return rng.choice([j * n - 1, j * n, j * n, j * n + 1, rng.choice(BIG_KS)])
+
+
+def scale_big_batch(rng, n, k=None):
+    return mk_scale(rng, 'big-batch', around(rng, n) if k is None else k, n, rng.choice(BIG_MS))
+
+
+def scale_many_load_batches(rng, ks, ms=(1, 1, 2, 3, 5, 7)):
+    k = rng.choice(ks) + rng.choice([-1, 0, 0, 1, rng.randrange(1000)])
+    return mk_scale(rng, 'many-load-batches', k, rng.choice([1000, 1024, 2000, 4096, 32768]), rng.choice(ms),
+                    rg=rng.choice([None, None, 1000, 5000]))
+
+
+def scale_many_dump_batches(rng, ks):
+    k = rng.choice(ks) + rng.choice([-1, 0, 1])
+    return mk_scale(rng, 'many-dump-batches', k, rng.choice([8, 16, 25, 32]), rng.choice([1024, 65536, 7]), rg=None)
+
+
+def scale_wide(rng, kmax):
+    sch = gen_schema(rng, rng.choice(WIDE_COLS))
+    n = rng.choice([1, 2, 7, 16, 100])
+    k = rng.choice([rng.randrange(kmax // 2, kmax + 1), rng.randrange(2, kmax + 1), min(kmax, n * rng.randrange(1, 4)), min(kmax, 2 * n + 1)])
+    return mk_scale(rng, 'wide-schema', k, n, rng.choice([1, 7, 100, 1024]), schema=sch, rg=rng.choice([None, None, 5, 64]),
+                    ko=gen_key_order(rng))
+
+
+def scale_long_values(rng, kmax, kind='longstr'):
+    n = rng.choice([1, 2, 3, 7, 16, 100])
+    k = rng.choice([rng.randrange(kmax // 2, kmax + 1), rng.randrange(2, kmax + 1), min(kmax, n * rng.randrange(1, 4)), min(kmax, 2 * n + 1)])
+    return mk_scale(rng, 'long-values', k, n, rng.choice([1, 2, 7, 100, 1024]), schema=kind, rg=rng.choice([None, None, 1, 5, 64]),
+                    ko=gen_key_order(rng))
+
+
+def gen_scale(rng, tier):
+    """the scale family (every choice from rng)"""
+    if tier == 'quick':
+        out = [scale_big_batch(rng, 65536, rng.choice([65536, 65536, 131072])),      # every row of the file in full batches of 2^16
+               scale_big_batch(rng, rng.choice([32768, 32769])),
+               scale_big_batch(rng, rng.choice([98304, 100000]), rng.choice([98303, 98304, 98305, 100000, 100001, 131072])),
+               scale_big_batch(rng, 65535, rng.choice([65535, 65536, 65537])),
+               scale_many_load_batches(rng, [20000], (1,)), scale_many_load_batches(rng, [30000, 32768, 40000], (2, 3, 5, 7)),
+               scale_wide(rng, 120), scale_wide(rng, 60),
+               scale_long_values(rng, 60), scale_long_values(rng, 40)]
+        return out
+    out = []
+    for n in BIG_NS:                                # every listed batch size x multiple / one less / one more / listed counts
+        for k in sorted({n - 1, n, n + 1, 2 * n, rng.choice([2 * n - 1, 2 * n + 1]), rng.choice(BIG_KS)}):
+            out.append(scale_big_batch(rng, n, k))
+    out += [scale_big_batch(rng, n, 3 * n + d) for n, d in ((32768, 0), (65536, 0), (65536, 1), (98304, 0), (100000, -1))]
+    out += [scale_big_batch(rng, rng.choice([131072, 196608, 262144]), rng.choice([262144, 262145, 196608, 393216])) for _ in range(3)]
+    out += [scale_many_load_batches(rng, [20000, 40000, 65536, 100000]) for _ in range(8)]
+    out += [scale_many_dump_batches(rng, [40000, 65536, 100000]) for _ in range(3)]
+    out += [scale_wide(rng, 400) for _ in range(12)]
+    out += [scale_long_values(rng, 200) for _ in range(8)] + [scale_long_values(rng, 30, 'longstr-1m') for _ in range(3)]
+    return out
+
+
 def generate(rng, tier):
     cases = [
         {'kind': 'pq', 'k': 4, 'n': 2, 'm': 3, 'rg': None, 'comp': 'snappy', 'schema': 'flat', 'io': 'path', 'seed': 1},
@@ -481,6 +609,8 @@ def generate(rng, tier):
     for _ in range(40 if tier == 'quick' else 400):
         n = rng.choice([1, 2, 3, 7, 16, 100])
         cases.append({'kind': 'batch', 'k': rng.choice([n * rng.randrange(0, 4), rng.randrange(0, 250)]), 'n': n})
+    # scale family (after everything else, from a stream of its own derived from rng)
+    cases += gen_scale(random.Random(rng.randrange(2 ** 62)), tier)
     return cases
 
 
@@ -613,6 +743,9 @@ def judge(case, k, obs, run=None):
     pre = '' if run is None else 'run %d of %s through ONE dump pipeline object (io %s): ' % (run + 1, case['runs'], case['io'])
     want = [[0, k]] if k else []
     kord = '' if ko_label(case) == 'schema' else ' [keys of the row dicts in order %s]' % (case['ko'],)
+    if case.get('scale'):
+        kord += ' [scale case %s: %d rows, dump batch_size %d, load batch_size %d, row_group_size %s, schema %s]' % (
+            case['scale'], k, n, case['m'], case['rg'], schema_label(case['schema']))
     if obs['dump_end'] != ['completed']:
         return {'sig': 'parquet:dump-end' + at, 'what': pre + 'dump_to_file ended with %s (schema %s, %d rows)%s'
                 % (obs['dump_end'], schema_label(case['schema']), k, kord)}
@@ -678,7 +811,12 @@ def describe(cases, obs):
          'resub_empty_later_run': 0, 'resub_empty_first_run': 0, 'resub_first_run_fills_a_batch': 0,
          'resub_to_different_files': 0, 'key_order': {}, 'key_order_by_schema': {},
          'rows_pushed_with_keys_not_in_schema_order': 0,
-         'cases_keys_not_in_schema_order_and_several_columns_of_one_type': 0}
+         'cases_keys_not_in_schema_order_and_several_columns_of_one_type': 0,
+         'scale_cases': {}, 'scale_dump_batch_sizes': {}, 'scale_max_rows': 0, 'scale_max_rows_in_one_dump_batch': 0,
+         'scale_full_dump_batches_of_a_multiple_of_32768_rows_above_32768': 0,
+         'scale_rows_exact_multiple_of_batch_size': 0, 'scale_rows_multiple_plus_or_minus_one': 0,
+         'scale_max_load_batches': 0, 'scale_max_dump_batches': 0, 'scale_max_load_batch_size': 0, 'scale_max_columns': 0,
+         'scale_max_value_length': 0, 'scale_compared_with_model': 0, 'scale_oracle_only (CSkip)': 0}
     ks = set()
     for c, o in zip(cases, obs):
         d[c['kind']] += 1
@@ -720,6 +858,23 @@ def describe(cases, obs):
             d['rows_pushed_with_keys_not_in_schema_order'] += moved
             d['cases_keys_not_in_schema_order_and_several_columns_of_one_type'] += \
                 1 if moved and same_typed_columns(c['schema']) else 0
+        if c.get('scale'):
+            d['scale_cases'][c['scale']] = d['scale_cases'].get(c['scale'], 0) + 1
+            d['scale_compared_with_model' if in_model(c) else 'scale_oracle_only (CSkip)'] += 1
+            d['scale_max_rows'] = max(d['scale_max_rows'], k)
+            d['scale_max_rows_in_one_dump_batch'] = max(d['scale_max_rows_in_one_dump_batch'], min(k, n))
+            d['scale_max_dump_batches'] = max(d['scale_max_dump_batches'], math.ceil(k / n))
+            d['scale_max_load_batches'] = max(d['scale_max_load_batches'], math.ceil(k / c['m']))
+            d['scale_max_load_batch_size'] = max(d['scale_max_load_batch_size'], c['m'])
+            if c['scale'] == 'big-batch':
+                d['scale_dump_batch_sizes'][str(n)] = d['scale_dump_batch_sizes'].get(str(n), 0) + 1
+                d['scale_full_dump_batches_of_a_multiple_of_32768_rows_above_32768'] += k // n if n % 32768 == 0 and n > 32768 else 0
+                d['scale_rows_exact_multiple_of_batch_size'] += 1 if k % n == 0 else 0
+                d['scale_rows_multiple_plus_or_minus_one'] += 1 if k % n in (1, n - 1) else 0
+            if is_gen(c['schema']):
+                d['scale_max_columns'] = max(d['scale_max_columns'], len(c['schema']['cols']))
+            if c['scale'] == 'long-values' and k:
+                d['scale_max_value_length'] = max([d['scale_max_value_length']] + [len(r['s']) for r in source_rows(c)])
         b = str(n) if n in NS else 'other'
         d['dump_batch_sizes'][b] = d['dump_batch_sizes'].get(b, 0) + 1
         d['max_batches_written'] = max(d['max_batches_written'], math.ceil(k / n))
@@ -749,6 +904,8 @@ def c_runs(rs):
 def coq_term(case, obs):
     if 'raised' in obs:
         return 'CRaised'
+    if not in_model(case):
+        return 'CSkip'
     if case['kind'] == 'batch':
         return 'CBatch %s %s %s' % (c_N(case['k']), c_N(case['n']),
                                     c_list([c_list([c_nlist(b) for b in st]) for st in obs['steps'] + [obs['final']]])
@@ -794,7 +951,12 @@ CLAIM = {
             'The source row dicts are pushed with their keys in schema order, reversed, in a random permutation per '
             'case and in a fresh random permutation per row (the key order of a dict is not part of the value of a '
             'row and does not appear in the model): a row of the file counts as source row i only if every field NAME '
-            'carries the source value of that name, with the file columns in schema order.',
+            'carries the source value of that name, with the file columns in schema order. A SCALE family runs the same '
+            'dump / inspect / load and the same oracle on dump batches of 32768..262144 rows (batch sizes around 2^15 and '
+            '2^16 and multiples of 2^15; row counts that are exact multiples, one less, one more), thousands of load and '
+            'dump batches, load batch sizes above 65535, schemas of 100..300 columns and values of 100 KiB..1 MiB; the '
+            'list model being quadratic in the batch size, the largest of these are judged by the model-free oracle '
+            'alone (CSkip in C20Corr.v) and not compared with the model.',
     'note': 'Trusted: Coq kernel+VM; hand-written model of batch.py/parquet.py as repaired (tied by correspondence only); '
             'pyarrow (oracle, not modelled); rs.ops.scan/filter/map plumbing and RxPY synchronous delivery are modelled, '
             'not verified. Encryption properties are not exercised.',
